@@ -69,6 +69,15 @@ def step (toks : List String) : Option (String × String) :=
       let lastStr := String.ofList last
       let sp := (tags.eraseDups.filter (fun t => last.isEmpty || lastStr < t)).foldr ins []
       some (m, ",".intercalate sp)
+  | "localreferrers" :: rest => do
+      -- three referrers: (both: at, empty config) (both-typed: at, typed config) (cfg-only: no at, typed config);
+      -- a referrer's type is its artifactType, else its config media type
+      let f ← kv rest "filter"
+      let all : List (String × String) := [("both", "application/vnd.verif.at"), ("both-typed", "application/vnd.verif.at"), ("cfg-only", "application/vnd.verif.cfgtype")]
+      let kept := all.filter (fun p => f == "-" || p.2 == f)
+      let items := (kept.map (fun p => p.1 ++ "=" ++ p.2)).toArray.qsort (· < ·) |>.toList
+      let a := if items.isEmpty then "-" else ",".intercalate items
+      some (a, a)
   | "errbody" :: _ =>
       -- an error answer of any size: at most `maxErrorBytes` (regenerated: 8 KiB) of it are read
       some (if Gen.errBodyReaders == ["io.LimitReader(resp.Body, maxErrorBytes)"] && Gen.errBodyLimit == "8 * 1024" then "within" else "unbounded-read-in-source", "within")
